@@ -23,8 +23,11 @@ import (
 type scnCall struct {
 	Call Call `json:"call"`
 	New  bool `json:"new,omitempty"` // not recorded beforehand: the run itself adds it
-	// Mut (C20 only): in the run the call differs from what was recorded: "changed" value, or a failing "matcher"
+	// Mut: in the run the call differs from what was recorded: "changed" value (C20 only), a failing "matcher" or "invalid" input
 	Mut string `json:"mut,omitempty"`
+	// Ghost: a call through a Config with Update(false) on a snapshot that was never recorded: "snapshot not found" in every
+	// process, nothing is created (its directory may never come into existence) - but the file and directory count as visited
+	Ghost bool `json:"never_recorded_update_false,omitempty"`
 }
 
 // onCall, if set, is told the outcome of every call of the run (not of the preparation).
@@ -91,6 +94,7 @@ func (c scnCall) spec(cfgs []CfgSpec) CfgSpec {
 type scnOpts struct {
 	skips     bool // C09: skip-protected tests (multi-entry calls in shared files only)
 	runFilter bool // C07: -run patterns that select every executed test
+	rejects   bool // calls that the run rejects before the comparison (C07, C09)
 }
 
 func genCleanScn(t *rapid.T, col *collector, so scnOpts) cleanScn {
@@ -123,6 +127,7 @@ func genCleanScn(t *rapid.T, col *collector, so scnOpts) cleanScn {
 				}
 			}
 		}
+		sawNew := false
 		for k := 0; k < n; k++ {
 			api := rapid.SampledFrom([]string{"snap", "snap", "snap", "json", "yaml", "ssnap", "sjson"}).Draw(t, "api")
 			if skipping {
@@ -136,7 +141,18 @@ func genCleanScn(t *rapid.T, col *collector, so scnOpts) cleanScn {
 			if skipping {
 				call.Cfg = 0 // shared with test 0 (made to address cfg 0 below)
 			}
-			st.Calls = append(st.Calls, scnCall{Call: call, New: !skipping && rapid.IntRange(0, 5).Draw(t, "new") == 0})
+			sc := scnCall{Call: call, New: !skipping && rapid.IntRange(0, 5).Draw(t, "new") == 0}
+			for _, prev := range st.Calls {
+				if prev.New {
+					sawNew = true // (the recording stops at the first new slot: nothing behind it is stored beforehand)
+				}
+			}
+			if so.rejects && !sc.New && !sawNew && (api == "json" || api == "sjson" || api == "yaml") && rapid.IntRange(0, 3).Draw(t, "reject") == 0 {
+				// in the run this call is rejected before the comparison (input not valid / matcher on a missing path): it fails,
+				// writes nothing, and still is the k-th call on its file
+				sc.Mut = rapid.SampledFrom([]string{"matcher", "invalid"}).Draw(t, "rejectkind")
+			}
+			st.Calls = append(st.Calls, sc)
 		}
 		if skipping {
 			st.SkipAt = rapid.IntRange(0, len(st.Calls)).Draw(t, "skipat")
@@ -233,6 +249,15 @@ func genCleanScn(t *rapid.T, col *collector, so scnOpts) cleanScn {
 			}
 		}
 		s.Tests = append(s.Tests, many)
+	}
+	if so.rejects && rapid.IntRange(0, 3).Draw(t, "ghost") == 0 {
+		s.Cfgs = append(s.Cfgs, CfgSpec{Dir: "ghostdir", Filename: "h", Update: boolp(false)})
+		ghost := scnTest{Name: rapid.SampledFrom([]string{"TestZGhost", "Test0Ghost", "TestAGhost"}).Draw(t, "ghostname"), SkipAt: -1}
+		for i := rapid.IntRange(1, 2).Draw(t, "nghost"); i > 0; i-- {
+			ghost.Calls = append(ghost.Calls, scnCall{Call: Call{API: "snap", Cfg: len(s.Cfgs) - 1, Vals: []Val{strVal("never recorded")}}, Ghost: true})
+		}
+		pos := rapid.IntRange(0, len(s.Tests)).Draw(t, "ghostpos")
+		s.Tests = append(s.Tests[:pos], append([]scnTest{ghost}, s.Tests[pos:]...)...)
 	}
 	if so.runFilter && rapid.IntRange(0, 5).Draw(t, "dangling") == 0 {
 		s.Dangling = rapid.IntRange(0, len(s.Cfgs)-1).Draw(t, "danglingcfg")
@@ -354,9 +379,19 @@ func (s cleanScn) execute(root string, mode Mode, count int, record bool) error 
 					ft.drain()
 					break
 				}
-				if record && c.New {
+				if record && (c.New || c.Ghost) {
 					// recorded files must not contain this slot: stop recording this test here (later slots would shift)
 					break
+				}
+				if c.Ghost {
+					r := c.Call.invoke(cfgs[c.Call.Cfg], ft)
+					if out, err := outcomeOf(r); err != nil || out != oFailed {
+						return fmt.Errorf("run: %s call %d through Update(false) on a snapshot never recorded: outcome %q err %v, want failed", st.Name, k+1, out, err)
+					}
+					if scnOnCall != nil {
+						scnOnCall(oFailed)
+					}
+					continue
 				}
 				cfg := cfgs[c.Call.Cfg]
 				if c.Call.standalone() {
@@ -697,7 +732,7 @@ func checkC07(s cleanScn) error {
 		for _, st := range s.Tests {
 			ft := newFakeT(st.Name)
 			for k, c := range st.Calls {
-				if st.SkipAt >= 0 && k >= st.SkipAt {
+				if (st.SkipAt >= 0 && k >= st.SkipAt) || c.Ghost {
 					break
 				}
 				cfg := cfgs[c.Call.Cfg]
@@ -733,6 +768,12 @@ func classifyCleanScn(s cleanScn) ([]string, bool) {
 			}
 			if c.New {
 				cls = append(cls, "slot_added_in_this_run")
+			}
+			if c.Ghost {
+				cls = append(cls, "visited_directory_that_never_came_into_existence")
+			}
+			if c.Mut == "matcher" || c.Mut == "invalid" {
+				cls = append(cls, "call_rejected_before_the_comparison")
 			}
 		}
 	}
@@ -812,7 +853,7 @@ func classifyC07(s cleanScn) ([]string, bool) {
 func TestC07_CleanKeepsMatched(t *testing.T) {
 	prop[cleanScn]{property: "C07", check: checkC07, classify: classifyC07,
 		gen: func(t *rapid.T) cleanScn {
-			return genCleanScn(t, getCollector("C07", "TestC07_CleanKeepsMatched"), scnOpts{runFilter: true})
+			return genCleanScn(t, getCollector("C07", "TestC07_CleanKeepsMatched"), scnOpts{runFilter: true, rejects: true})
 		}}.run(t)
 }
 
@@ -992,7 +1033,7 @@ func classifyC09(s cleanScn) ([]string, bool) {
 func TestC09_CleanReportsStale(t *testing.T) {
 	prop[cleanScn]{property: "C09", check: checkC09, classify: classifyC09,
 		gen: func(t *rapid.T) cleanScn {
-			return genCleanScn(t, getCollector("C09", "TestC09_CleanReportsStale"), scnOpts{skips: true})
+			return genCleanScn(t, getCollector("C09", "TestC09_CleanReportsStale"), scnOpts{skips: true, rejects: true})
 		}}.run(t)
 }
 
@@ -1000,6 +1041,14 @@ func TestC09_CleanReportsStale(t *testing.T) {
 func mutatedCall(c Call, mut string) Call {
 	if mut == "lost_newline" {
 		return c // the recorded value is the one that differs (see execute)
+	}
+	if mut == "invalid" && (c.API == "json" || c.API == "sjson" || c.API == "yaml") {
+		c.Form, c.Matchers = "string", nil
+		c.Doc = `{"a": [1, }`
+		if c.API == "yaml" {
+			c.Doc = "a: [1\nb: }"
+		}
+		return c
 	}
 	if mut == "matcher" && (c.API == "json" || c.API == "sjson" || c.API == "yaml") {
 		path := "no.such.path"
